@@ -69,6 +69,9 @@ class Tr:
         self.monadic = False
 
     # ---- plumbing
+    def local_name(self, n):
+        return n if n not in ('I', 'V', 'Y', 'Z', 'Q', 'A', 'B') else n + '_'
+
     def fresh(self, stem):
         self.counter += 1
         return f'{stem}{self.counter}'
@@ -85,7 +88,9 @@ class Tr:
         return v
 
     def sub(self, extra_env):
-        t = Tr(self.g, self.rel, {**self.env, **extra_env}, self.selfkind)
+        t = type(self)(self.g, self.rel, {**self.env, **extra_env}, self.selfkind)
+        t.__dict__.update({k: v for k, v in self.__dict__.items() if k not in ('env', 'lines', 'cache', 'counter', 'monadic', 'pending')})
+        t.env = {**self.env, **extra_env}
         t.counter = self.counter + 10
         t.cache = dict(self.cache)
         return t
@@ -586,6 +591,8 @@ class Tr:
                 then = [f'THROW {EXC[name]}']
             elif len(body) == 1 and isinstance(body[0], ast.Return):
                 then = self.with_block(lambda: self.emit_ret(body[0].value))
+            elif len(body) > 1 and isinstance(body[-1], ast.Return):
+                then = self.with_block(lambda: self.block(body))
             else:
                 self.no(s, 'if-statement outside the grammar (only `if c: return …` / `if c: raise …`)')
             els = self.with_block(lambda: self.block(rest))
@@ -600,7 +607,7 @@ class Tr:
                 self.pending[n] = self.zero_table(s.value)
                 return self.block(rest)
             v, k = self.ex(s.value)
-            ln = n if n not in ('I', 'V', 'Y', 'Z', 'Q', 'A', 'B') else n + '_'
+            ln = self.local_name(n)
             self.lines.append(f'let {ln} : {lean_ty(k)} := {v}')
             self.env[n] = (ln, k)
             return self.block(rest)
@@ -834,6 +841,8 @@ def dataclass_fields(cls):
 # --------------------------------------------------------------------------- generator
 
 class Gen:
+    TR = Tr
+
     def __init__(self, src):
         self.src = src
         self.trees = {f: parse(src, f) for f in (F_ELM, F_NET, F_MAP, F_NA, F_BP, F_SOL)}
@@ -918,7 +927,7 @@ class Gen:
             env['__self_net'] = ('network', 'net')
         if closure:
             env.update(closure)
-        tr = Tr(self, rel, env, selfkind)
+        tr = self.TR(self, rel, env, selfkind)
         tr.want = ret; tr.want_x = want_x; tr.pending = {}
         tr.block(strip_doc(fd.body) if body is None else body)
         if tr.pending:
